@@ -492,6 +492,23 @@ void run_pages(const Plan& p) {
     s.top = lower;
   }
   if (s.top->page_size() != PSZ) fail("api", "page_size", "page_size() = %zu through the stack, upstream has %zu", s.top->page_size(), PSZ);
+  // burn-in (rare shape): the main thread alone cycles one page through the
+  // cache until every slot of its queue is a few tickets away from the 16-bit
+  // wrap of the slot version; the concurrent phases then cross the wrap in
+  // whatever fill state the plan produces
+  int64_t burn = std::max<int64_t>(0, std::min<int64_t>(p.get("burn", 0), 70000));
+  if (burn && s.cache && !s.batch && !s.counting && !heap) {
+    call_allocate(0, 1, true);
+    for (int64_t i = 0; i < burn && !s.held[0].empty(); i++) {
+      call_deallocate(0, 1, true, 0);
+      call_allocate(0, 1, true);
+    }
+    while (!s.held[0].empty()) call_deallocate(0, 1, true, 0);
+    // leave the cache empty or full, as drawn
+    if (p.get("burn_drain", 0)) { for (size_t i = 0; i < s.cap; i++) call_allocate(0, 1, true); s.mailbox.insert(s.mailbox.end(), s.held[0].begin(), s.held[0].end()); for (void* pg : s.held[0]) s.pages[(uintptr_t)pg].holder = -2; s.held[0].clear(); }
+    check_conservation("after-burn-in");
+    probe("version_wrap_burn_in");
+  }
   for (int phase = 0; phase < 2; phase++) {
     run_phase(p, phase);
     check_conservation(phase == 0 ? "quiescence-1" : "quiescence-2");
@@ -612,6 +629,14 @@ void gen(Rng& r, Plan& p, const GenParams& gp) {
     p.cfg["cache"] = heap ? r.range(1, 4) : r.chance(4, 5) ? r.range(1, 4) : 0;
     p.cfg["batch"] = !heap && r.chance(1, 3) ? r.range(1, 4) : 0;
     p.cfg["counting"] = !heap && r.chance(1, 3);
+    if (!heap && r.chance(1, gp.thorough ? 60 : 120)) {
+      // version-wrap shape: small cache alone, burn-in to just below the wrap
+      int64_t cap = r.range(1, 2);
+      p.cfg["cache"] = cap; p.cfg["batch"] = 0; p.cfg["counting"] = 0;
+      p.cfg["burn"] = 32768 * cap - (int64_t)r.below((uint64_t)(2 * cap + 3));
+      p.cfg["burn_drain"] = r.chance(1, 3);
+      p.cfg["max_steps"] = 40000000;
+    }
     for (int t = 1; t <= nthreads + second; t++) {
       int phase = t > nthreads;
       int nops = (int)r.range(3, gp.thorough ? 10 : 8);
